@@ -1,6 +1,7 @@
 /-
 Helper lemmas about the generated gate-solver kernels over ℝ.
 -/
+import JaxleyVerif.Lemmas.Tactics
 import Mathlib.Tactic.Ring
 import Mathlib.Tactic.FieldSimp
 import Mathlib.Tactic.Positivity
@@ -51,19 +52,17 @@ theorem exponential_euler_closed {x dt xinf tau : ℝ} (hdt : 0 ≤ dt) (htau : 
     have : -dt / tau ≤ 0 := div_nonpos_of_nonpos_of_nonneg (by linarith) htau.le
     linarith
   simp only [save_exp_eq h]
-  norm_num
-  ring
+  close_arith
 
 theorem solve_inf_gate_exponential_closed {x dt sinf tau : ℝ} (hdt : 0 ≤ dt) (htau : 0 < tau) :
     solve_inf_gate_exponential x dt sinf tau = sinf + (x - sinf) * Real.exp (-dt / tau) := by
   unfold solve_inf_gate_exponential
-  have e : (-1.0 : ℝ) / tau * dt = -dt / tau := by norm_num; ring
+  have e : (-1.0 : ℝ) / tau * dt = -dt / tau := by close_arith
   have h : -dt / tau ≤ 20 := by
     have : -dt / tau ≤ 0 := div_nonpos_of_nonpos_of_nonneg (by linarith) htau.le
     linarith
   simp only [e, save_exp_eq h]
-  norm_num
-  ring
+  close_arith
 
 theorem solve_gate_exponential_closed {x dt a b : ℝ} (hdt : 0 ≤ dt) (hab : 0 < a + b) :
     solve_gate_exponential x dt a b
@@ -73,7 +72,7 @@ theorem solve_gate_exponential_closed {x dt a b : ℝ} (hdt : 0 ≤ dt) (hab : 0
   rw [exponential_euler_closed hdt htau]
   have : -dt / ((1.0:ℝ) / (a + b)) = -dt * (a + b) := by norm_num
   rw [this]
-  have : a * ((1.0:ℝ) / (a + b)) = a / (a + b) := by norm_num; ring
+  have : a * ((1.0:ℝ) / (a + b)) = a / (a + b) := by close_arith
   rw [this]
 
 /-- a convex-combination update stays in the unit interval -/
